@@ -207,6 +207,12 @@ def main():
             if not fired.get(own):
                 missed += 1
             print("%-28s %-4s %-16s %s" % (sid, own, st, "; ".join("%s:%d" % (k, len(v)) for k, v in fired.items())))
+            if "--update" in sys.argv:
+                import re
+                rules = sorted({m.group(1) for k, v in fired.items() for l in v for m in [re.search(r"\[(C\d\d/[RT]\d+)\]", l)] if m})
+                meta["caught_by_now"] = ", ".join(rules)
+                meta["initially_missed_by_own_check"] = not bool(meta.get("detected_by", {}).get(own))
+                json.dump(meta, open(os.path.join(mdir, "meta.json"), "w"), indent=1)
             for k, v in fired.items():
                 for l in v[:2]:
                     print("      ", l[:200])
